@@ -49,7 +49,7 @@ def answer (line : String) : String :=
     | "C05" => Codec.handle rest
     | "C04" => Trie.handle op rest
     | "C06" => Build.handle rest
-    | "C10" => Recycle.IO.handle rest
+    | "C10" => if op = "pysess".toList then Recycle.IO.handlePy rest else Recycle.IO.handle rest
     | "C03" => TotalIO.handle op rest
     | _ => "bad-op"
   | _ => "bad-op"
